@@ -193,6 +193,15 @@ let () =
                  else ora "C11" (Printf.sprintf "restored_state_differs_at_%d" k)
                end
            | None -> ())
+       | "XSTRESS" ->
+           let sp = String.split_on_char ' ' l in
+           (match sp with
+            | _ :: id :: verdict :: ms :: _ ->
+                incr steps; bump "stress.cases"; incr nontrivial;
+                case_id := int_of_string id;
+                if verdict = "panic" then emit_div "X" "stress" [ "panic.impl" ]
+                else if verdict = "slow" then emit_div "X" "stress" [ "hang.impl"; "ms=" ^ ms ]
+            | _ -> ())
        | "X12" -> let t = toks_of_line l in x12_pending := Some (int t)
        | "X11" -> let t = toks_of_line l in x11_pending := Some (int t, None)
        | "X11P" ->
